@@ -62,6 +62,16 @@ func (e *env) open(t fataler) (fs.Registry, sop.L2Cache) {
 	return fs.NewRegistry(true, e.mod, rt, l2), l2
 }
 
+// openRO: a registry object opened read-only (what a ForReading transaction uses), brand-new L2 cache.
+func (e *env) openRO(t fataler) (fs.Registry, sop.L2Cache) {
+	l2 := cache.NewL2InMemoryCache()
+	rt, err := fs.NewReplicationTracker(ctx, []string{e.dir}, false, l2)
+	if err != nil {
+		t.Fatalf("HARNESS-ERROR NewReplicationTracker: %v", err)
+	}
+	return fs.NewRegistry(false, e.mod, rt, l2), l2
+}
+
 func (e *env) segPath(i int) string {
 	return filepath.Join(e.dir, table, fmt.Sprintf("%s-%d.reg", table, i))
 }
